@@ -88,15 +88,18 @@ Section Bounded.
       simpl in Hc. destruct (valid p); [exact Hc|left; reflexivity].
   Qed.
 
-  Lemma ends_ok cs : forall ss fend, bounded_all cs -> Forall okpos ss -> fend <= hi ->
-    Forall (fun e => e <= hi) (fst (ends_of cs ss fend)) /\ snd (ends_of cs ss fend) <= hi.
+  Lemma ends_ok nend cs : forall ss fend, bounded_all cs -> Forall okpos ss -> fend <= hi ->
+    Forall (fun e => e <= hi) (fst (ends_of nend cs ss fend)) /\ snd (ends_of nend cs ss fend) <= hi.
   Proof.
     induction cs as [|c cs IH]; intros ss fend Hb Hs Hf; cbn [ends_of]; [split; [constructor|exact Hf]|].
     destruct ss as [|s ss']; [split; [constructor|exact Hf]|].
     destruct Hb as [Hc Hcs]. inversion Hs as [|? ? Hs1 Hs2]; subst.
     destruct (IH ss' fend Hcs Hs2 Hf) as [H1 H2].
-    destruct (ends_of cs ss' fend) as [es np]. cbn [fst snd] in *. split; [|apply okpos_le; exact Hs1].
-    constructor; [|exact H1]. destruct (is_node c); [apply okpos_le, okpos_vend; exact Hc|exact H2].
+    destruct (ends_of nend cs ss' fend) as [es np]. cbn [fst snd] in *. split; [|apply okpos_le; exact Hs1].
+    constructor; [|exact H1]. destruct (is_node c); [|exact H2].
+    pose proof (okpos_le _ (okpos_vend c Hc)) as Hv. unfold node_field_end.
+    destruct (valid nend && (nend <? vend c))%bool eqn:E; [|exact Hv].
+    apply andb_true_iff in E as [_ E]. apply Z.ltb_lt in E. lia.
   Qed.
 
   (* ---- walkSlice ---- *)
@@ -134,14 +137,14 @@ Section Bounded.
   Variable script : list value -> list value -> list edit.
 
   Definition walk_ok (k : nat) : Prop :=
-    forall r from to w, bounded from -> Inv r -> walk script k r from to = Some w -> Forall Good (w_log w).
+    forall nend r from to w, bounded from -> Inv r -> walk script k nend r from to = Some w -> Forall Good (w_log w).
 
   Lemma good_single r : Inv r -> Forall Good [r].
   Proof. intros H. constructor; [apply inv_good; exact H|constructor]. Qed.
 
   Lemma walk_bounded_n : forall k, walk_ok k.
   Proof.
-    induction k as [|k IH]; intros r from to w Hb Hr H; [discriminate|].
+    induction k as [|k IH]; intros nend r from to w Hb Hr H; [discriminate|].
     cbn [walk] in H.
     destruct (negb (N.eqb (vtype from) (vtype to))); [inversion H; subst; apply good_single; exact Hr|].
     destruct (N.eqb (vtype from) T_object || N.eqb (vtype from) T_cgroup)%bool; [inversion H; subst; constructor|].
@@ -155,8 +158,8 @@ Section Bounded.
       destruct (N.eqb af a); inversion H; subst; [constructor|apply good_single; exact Hr].
     - (* VRef *)
       destruct to as [tt|pt|tt at_|tt it et|tt ent ys|tt ys]; try (inversion H; subst; apply good_single; exact Hr).
-      destruct (walk script k r ef et) as [w'|] eqn:E; [|discriminate]. inversion H; subst. cbn [w_log].
-      simpl in Hb. destruct Hb as [_ [_ [_ Hb]]]. exact (IH r ef et w' Hb Hr E).
+      match type of H with context [walk script k ?ne r ef et] => destruct (walk script k ne r ef et) as [w'|] eqn:E; [|discriminate]; inversion H; subst; cbn [w_log];
+        simpl in Hb; destruct Hb as [_ [_ [_ Hb]]]; exact (IH ne r ef et w' Hb Hr E) end.
     - (* VSlice *)
       destruct to as [tt|pt|tt at_|tt it et|tt ent ys|tt ys];
         try (destruct enf; inversion H; subst; apply good_single; exact Hr).
@@ -184,10 +187,10 @@ Section Bounded.
               destruct (go es xs ys' regs) as [[[eq' tos'] lg']|] eqn:E; [|discriminate]. inversion Hg; subst.
               eapply IHes; eauto.
             + destruct xs as [|x xs']; [discriminate|]. destruct ys as [|y ys']; [discriminate|]. destruct regs as [|rg regs']; [discriminate|].
-              destruct (walk script k rg x y) as [w'|] eqn:Ew; [|discriminate].
+              destruct (walk script k nend rg x y) as [w'|] eqn:Ew; [|discriminate].
               destruct (go es xs' ys' regs') as [[[eq' tos'] lg']|] eqn:E; [|discriminate]. inversion Hg; subst.
               destruct Hbx as [Hx Hbx]. inversion Hrg as [|? ? Hrg1 Hrg2]; subst.
-              apply Forall_app. split; [exact (IH rg x y w' Hx Hrg1 Ew)|]. eapply IHes; eauto. }
+              apply Forall_app. split; [exact (IH nend rg x y w' Hx Hrg1 Ew)|]. eapply IHes; eauto. }
         destruct (go es xs ys regs) as [[[eq tos] lg]|] eqn:E; [|discriminate]. inversion H; subst. cbn [w_log].
         eapply Hgo; eauto.
       + (* plain slice *)
@@ -198,18 +201,18 @@ Section Bounded.
         { clear H Hb xs ys. induction xs as [|x xs IHxs]; intros ys eq tos lg Hbx Hg.
           - simpl in Hg. inversion Hg; subst. constructor.
           - destruct ys as [|y ys']; simpl in Hg; [inversion Hg; subst; constructor|].
-            destruct (walk script k r x y) as [w'|] eqn:Ew; [|discriminate].
+            destruct (walk script k nend r x y) as [w'|] eqn:Ew; [|discriminate].
             destruct (go xs ys') as [[[eq' tos'] lg']|] eqn:E; [|discriminate]. inversion Hg; subst.
-            destruct Hbx as [Hx Hbx]. apply Forall_app. split; [exact (IH r x y w' Hx Hr Ew)|]. eapply IHxs; eauto. }
+            destruct Hbx as [Hx Hbx]. apply Forall_app. split; [exact (IH nend r x y w' Hx Hr Ew)|]. eapply IHxs; eauto. }
         destruct (go xs ys) as [[[eq tos] lg]|] eqn:E; [|discriminate]. inversion H; subst. cbn [w_log].
         eapply Hgo; eauto.
     - (* VStruct *)
       destruct to as [tt|pt|tt at_|tt it et|tt ent ys|tt ys]; try (inversion H; subst; apply good_single; exact Hr).
       rewrite bounded_struct in Hb. destruct Hr as [Hr1 Hr2].
       pose proof (starts_ok xs (fst r) Hb Hr1) as Hss.
-      pose proof (ends_ok xs (starts_of xs (fst r)) (snd r) Hb Hss Hr2) as [Hes _].
+      pose proof (ends_ok nend xs (starts_of xs (fst r)) (snd r) Hb Hss Hr2) as [Hes _].
       revert H Hss Hes. generalize (starts_of xs (fst r)) as ss. intros ss.
-      generalize (fst (ends_of xs ss (snd r))) as es. intros es H Hss Hes.
+      generalize (fst (ends_of nend xs ss (snd r))) as es. intros es H Hss Hes.
       match type of H with context [ (fix go (xs ys : list value) (ss es : list Z) {struct xs} := _) xs ys ss es ] =>
         set (go := (fix go (xs ys : list value) (ss es : list Z) {struct xs} : option (bool * list value * list region) := _)) in H end.
       assert (forall xs ys ss es eq tos lg, bounded_all xs -> Forall okpos ss -> Forall (fun e => e <= hi) es ->
@@ -219,17 +222,17 @@ Section Bounded.
         - destruct ys as [|y ys']; simpl in Hg; [inversion Hg; subst; constructor|].
           destruct ss as [|s ss']; [inversion Hg; subst; constructor|].
           destruct es as [|e es']; [inversion Hg; subst; constructor|].
-          destruct (walk script k (s, e) x y) as [w'|] eqn:Ew; [|discriminate].
+          destruct (walk script k nend (s, e) x y) as [w'|] eqn:Ew; [|discriminate].
           destruct (go xs ys' ss' es') as [[[eq' tos'] lg']|] eqn:E; [|discriminate]. inversion Hg; subst.
           destruct Hbx as [Hx Hbx]. inversion Hs; subst. inversion He; subst.
           apply Forall_app. split; [|eapply IHxs; eauto].
-          apply (IH (s, e) x y w' Hx); [split; assumption|exact Ew]. }
+          apply (IH nend (s, e) x y w' Hx); [split; assumption|exact Ew]. }
       destruct (go xs ys ss es) as [[[eq tos] lg]|] eqn:E; [|discriminate]. inversion H; subst. cbn [w_log].
       eapply Hgo; eauto.
   Qed.
 
-  Theorem walk_bounded k r from to w :
-    bounded from -> Inv r -> walk script k r from to = Some w -> Forall Good (w_log w).
+  Theorem walk_bounded k nend r from to w :
+    bounded from -> Inv r -> walk script k nend r from to = Some w -> Forall Good (w_log w).
   Proof. apply walk_bounded_n. Qed.
 
   (* the comments attached to the walked node itself (its doc and trailing comments, which lie
@@ -240,18 +243,18 @@ Section Bounded.
     | _ => bounded v
     end.
 
-  Theorem walk_bounded_root : forall k r from to w,
-    bounded_root from -> Inv r -> walk script k r from to = Some w -> Forall Good (w_log w).
+  Theorem walk_bounded_root : forall k nend r from to w,
+    bounded_root from -> Inv r -> walk script k nend r from to = Some w -> Forall Good (w_log w).
   Proof.
-    induction k as [|k IH]; intros r from to w Hb Hr H; [discriminate|].
+    induction k as [|k IH]; intros nend r from to w Hb Hr H; [discriminate|].
     destruct from as [tf|pf|tf af|tf inf ef|tf enf xs|tf xs];
       try (eapply walk_bounded; [exact Hb|exact Hr|exact H]).
     cbn [walk] in H.
     destruct (negb (N.eqb (vtype (VRef tf inf ef)) (vtype to))); [inversion H; subst; apply good_single; exact Hr|].
     destruct (N.eqb (vtype (VRef tf inf ef)) T_object || N.eqb (vtype (VRef tf inf ef)) T_cgroup)%bool; [inversion H; subst; constructor|].
     destruct to as [tt|pt|tt at_|tt it et|tt ent ys|tt ys]; try (inversion H; subst; apply good_single; exact Hr).
-    destruct (walk script k r ef et) as [w'|] eqn:E; [|discriminate]. inversion H; subst. cbn [w_log].
-    simpl in Hb. destruct Hb as [_ [_ Hb]]. exact (IH r ef et w' Hb Hr E).
+    match type of H with context [walk script k ?ne r ef et] => destruct (walk script k ne r ef et) as [w'|] eqn:E; [|discriminate]; inversion H; subst; cbn [w_log];
+      simpl in Hb; destruct Hb as [_ [_ Hb]]; exact (IH ne r ef et w' Hb Hr E) end.
   Qed.
 End Bounded.
 
@@ -324,8 +327,8 @@ Section Slice.
   Qed.
 
   (* what the walk of a list of nodes reports *)
-  Theorem slice_log_not_inside k r t xs t' en ys w :
-    walk script (S k) r (VSlice t true xs) (VSlice t' en ys) = Some w ->
+  Theorem slice_log_not_inside k nend r t xs t' en ys w :
+    walk script (S k) nend r (VSlice t true xs) (VSlice t' en ys) = Some w ->
     N.eqb t t' = true -> N.eqb t T_object = false -> N.eqb t T_cgroup = false ->
     posok (script xs ys) xs (elem_regions r None xs) ->
     Forall not_inside (w_log w).
@@ -349,7 +352,7 @@ Section Slice.
         + destruct ys as [|y ys']; [discriminate|].
           destruct (go es xs ys' regs) as [[[eq' tos'] lg']|] eqn:E; [|discriminate]. inversion Hg; subst. eapply IHes; eauto.
         + destruct xs as [|x xs']; [discriminate|]. destruct ys as [|y ys']; [discriminate|]. destruct regs as [|rg regs']; [discriminate|].
-          destruct (walk script k rg x y) as [w'|] eqn:Ew; [|discriminate].
+          destruct (walk script k nend rg x y) as [w'|] eqn:Ew; [|discriminate].
           destruct (go es xs' ys' regs') as [[[eq' tos'] lg']|] eqn:E; [|discriminate]. inversion Hg; subst.
           destruct Hp as [[Hlo [Hlh [Hb [Hok Hx]]]] Hp]. apply Forall_app. split; [|eapply IHes; eauto].
           assert (Forall (Good (Z.min (fst rg) (vpos x)) (Z.max (snd rg) (vend x))) (w_log w')) as HG.
@@ -489,8 +492,8 @@ Section Identity.
     \/ (In c (snd (comments_for xj)) /\ vend xj <= fst c /\ (forall nx, nth_error xs (S j) = Some nx -> snd c <= vpos nx))
     \/ (vpos xj <= fst c /\ snd c <= vend xj).
 
-  Theorem identity_element_keeps_its_comments k r t xs t' en ys w j xj c :
-    walk script (S k) r (VSlice t true xs) (VSlice t' en ys) = Some w ->
+  Theorem identity_element_keeps_its_comments k nend r t xs t' en ys w j xj c :
+    walk script (S k) nend r (VSlice t true xs) (VSlice t' en ys) = Some w ->
     N.eqb t t' = true -> N.eqb t T_object = false -> N.eqb t T_cgroup = false ->
     (* the list: nodes in source order, each subtree within the extent of its root *)
     Forall node_ok xs -> ordered xs ->
@@ -687,8 +690,8 @@ Proof.
 Qed.
 
 (* the theorem with its side conditions in executable form *)
-Theorem identity_element_keeps_its_comments_b script k r t xs t' en ys w j xj c :
-  walk script (S k) r (VSlice t true xs) (VSlice t' en ys) = Some w ->
+Theorem identity_element_keeps_its_comments_b script k nend r t xs t' en ys w j xj c :
+  walk script (S k) nend r (VSlice t true xs) (VSlice t' en ys) = Some w ->
   N.eqb t t' = true -> N.eqb t T_object = false -> N.eqb t T_cgroup = false ->
   list_okb r xs (xedits (script xs ys)) = true ->
   nth_error xs j = Some xj -> nth_error (xedits (script xs ys)) j = Some Identity ->
